@@ -140,6 +140,19 @@ Theorem C07_ignore_preserves_rest : forall s meth c1 c2 ign d1 d2 r,
 Proof. exact ignore_preserves_rest. Qed.
 Print Assumptions C07_ignore_preserves_rest.
 
+(* callables that are neither Python functions nor bound Python methods (builtins such as len, bound builtin
+   methods, classes, functools.partial objects, callable instances) are not walked: they get {'*': args,
+   '**': kwargs}; that form loses nothing.  (The class of these callables is regenerated from the source test,
+   Proofs/FilterArgsGen.takes_fallback_gen_eq.) *)
+Theorem C07_fallback_injective : forall c1 c2, filter_args_opaque c1 = filter_args_opaque c2 -> c1 = c2.
+Proof. exact fallback_injective. Qed.
+Print Assumptions C07_fallback_injective.
+
+Theorem C07_fallback_class : forall is_method is_function,
+  takes_fallback is_method is_function = true <-> is_method = false /\ is_function = false.
+Proof. exact fallback_class. Qed.
+Print Assumptions C07_fallback_class.
+
 (* ---------------------------------------------------------------- get_func_name / the function identifier (M2b) *)
 (* for an ordinary callable (module given and not "__main__", __name__ = last segment of __qualname__, no empty
    or "/"-containing segment) Memory's identifier is the dotted path module.qualname with "/" for "." *)
